@@ -22,4 +22,7 @@ class Xor(BinaryNode):
         self.add_child(child1)
         self.add_child(child2)
 
+        self.in_vars = child1.in_vars + child2.in_vars
+        self.out_vars = child1.out_vars + child2.out_vars
+
         self.name = '(' + child1.name + ')xor(' + child2.name + ')'
